@@ -157,7 +157,7 @@ func (fr *Frame) step(st *State, instr ssa.Instruction, b *ssa.BasicBlock, edgeC
 					ec = Not(c)
 				}
 				bs := st.clone()
-				bs.pc = And(st.pc, ec)
+				bs.pc = pcAnd(st.pc, ec)
 				fr.backEdge(headers[s], bs, b)
 			}
 		}
